@@ -390,6 +390,12 @@ class PythonToIrCompiler:
             op_typ = type(statement.op)
             if op_typ is ast.FloorDiv and var.ty.is_signed:
                 value = self.gen_int_floor_div(lhs, rhs, var.ty)
+            elif op_typ is ast.Div and var.ty.is_integer:
+                self.error(
+                    statement,
+                    "True division of integers gives a float, "
+                    "which is not supported. Use //= instead.",
+                )
             else:
                 op = self.binop_map[op_typ]
                 value = self.emit(
@@ -513,6 +519,12 @@ class PythonToIrCompiler:
         op_typ = type(expr.op)
         if op_typ is ast.FloorDiv and ty.is_signed:
             return self.gen_int_floor_div(a, b, ty)
+        if op_typ is ast.Div and ty.is_integer:
+            self.error(
+                expr,
+                "True division of integers gives a float, "
+                "which is not supported. Use // instead.",
+            )
         if op_typ in self.binop_map:
             op = self.binop_map[op_typ]
         else:
